@@ -4,6 +4,7 @@
 -/
 import Lean.Data.Json
 import SqlairModel.Spec.L4
+import SqlairModel.Spec.L4Cancel
 import SqlairModel.Spec.L5
 import Driver.Json
 
@@ -53,15 +54,17 @@ def predJson (p : Rt.Pred) : Json :=
     ("outcome", Json.str p.outcome), ("finish", Json.arr (p.finish.map Json.str).toArray),
     ("evA", Json.arr (p.evA.map Json.str).toArray), ("evB", Json.arr (p.evB.map Json.str).toArray)]
 
-/-- C14, the cancellation half of its last sentence: when the query's context is cancelled
-    while the result set is still open (the reference machine says so: it has every Close
-    of the sequence return the context's error), no Close of the implementation presents
-    the iteration as ended normally -/
-def cancelReported (c : Case) (p : Pred) (o : Obs) : Bool :=
-  if c.op != "iter" || c.cancelAt.isNone then true else
-  let want := (c.calls.zip p.returns).filterMap fun (call, r) => if call == "close" then some r else none
-  if want.isEmpty || !want.all (· == "ctx") then true else
-  (closeResults c o).all (· != "")
+-- `cancelReported` (C14, the cancellation half of its last sentence) is `Sqlair.Rt.cancelReported`,
+-- `SqlairModel/Spec/L4Cancel.lean`; `cancelReported_of_returns_eq` (Props/L2Rows.lean) is its soundness.
+
+/-- C05, last sentence, as Get and Run show it: a statement is treated as returning rows
+    exactly when it has an output expression - an empty result is ErrNoRows for a
+    statement with outputs (where the reference machine says so) and never for one without -/
+def rowsIffOutputs (c : Case) (p : Pred) (o : Obs) : Bool :=
+  if !(c.op == "run" || c.op == "get") then true else
+  let pm := p.returns.headD ""
+  let im := o.returns.headD ""
+  !((pm == "noRows" && im == "") || (pm == "" && im == "noRows"))
 
 def handleL4 (j : Json) : Except String Json := do
   let c := parseL4Case (← j.getObjVal? "case")
@@ -74,7 +77,10 @@ def handleL4 (j : Json) : Except String Json := do
      ("affects", Json.arr (ds.map (fun d => Json.str d.1)).eraseDups.toArray),
      ("diff", Json.str (String.intercalate "; " (ds.map (·.2)))),
      ("c09", Json.bool (holdsC09tx c o)), ("c06", Json.bool o.rowsFaithful),
-     ("c12", Json.bool (holdsC12 c o)), ("c13", Json.bool (holdsC13 c o)),
+     ("c05", Json.bool (rowsIffOutputs c p o)),
+     ("c12", Json.bool (holdsC12 c o)),
+     -- (the result set is closed when the call returns, inside a transaction too)
+     ("c13", Json.bool (holdsC13 c o && gn (← j.getObjVal? "obs") "openRowsAtReturn" == 0)),
      ("c14", Json.bool (holdsC14 c o && cancelReported c p o)), ("c15", Json.bool (holdsC15 c o)),
      ("c20", Json.bool (holdsC20 c o))])
 
@@ -165,16 +171,18 @@ def handleL5c (j : Json) : Except String Json := do
   let execs : List ExecObs := parseExecs oj
   -- transaction half: nothing a transaction issued ran on another connection
   let txOk := gn oj "txStray" == 0
-  let c09 := holdsC09 execs && txOk
+  -- DB half: DBs created at the same moment are distinct cache keys (the first query of
+  -- each reached its own driver)
+  let c09 := holdsC09 execs && txOk && gn oj "dbStray" == 0
   let c10 := holdsC10 execs (gn oj "closedErrs")
   -- everything was dropped and collected: nothing may be left open or cached
   let c11 := gn oj "dupIDs" == 0 && gn oj "stmtEntriesLeft" == 0 &&
     execs.all (fun e => !e.closedBefore) && gn oj "closedErrs" == 0 &&
     holdsC11 (gn oj "doubleClose") (gn oj "openStmts") (gn oj "cacheLeft") 4 true (gn oj "cacheLeft")
-  let why := (if c09 then "" else "an execution used a statement prepared for another SQL or DB, or a transaction's statement ran outside its connection; ") ++
+  let why := (if c09 then "" else "an execution used a statement prepared for another SQL or DB, a transaction's statement ran outside its connection, or two DBs created at the same moment share a cache key; ") ++
     (if c10 then "" else "a closed statement was executed; ") ++
     (if c11 then "" else s!"two Statements share a cache id ({gn oj "dupIDs"}), Statement entries left after everything was dropped ({gn oj "stmtEntriesLeft"}), a statement was closed while a user still held it, or after dropping everything: open driver statements {gn oj "openStmts"}, cache entries {gn oj "cacheLeft"}, double closes {gn oj "doubleClose"}")
-  pure (Json.mkObj [("c09", Json.bool c09), ("c10", Json.bool c10), ("c11", Json.bool c11), ("c12", Json.bool txOk),
+  pure (Json.mkObj [("c09", Json.bool c09), ("c10", Json.bool c10), ("c11", Json.bool c11), ("c12", Json.bool (txOk && gn oj "txAfterEnd" == 0)),
     -- C16: the SQL a call runs is the SQL of its own arguments, whatever runs concurrently
     ("c16", Json.bool (holdsC09 execs)), ("why", Json.str why),
     ("execs", (execs.length : Json))])
